@@ -63,6 +63,9 @@ impl<M: Matcher> Replacer<M> {
         // an unterminated last line still belongs to the range.
         let open_ended = range.end == haystack.len()
             && !searcher.line_terminator().is_suffix(&haystack[..range.end]);
+        // The haystack without the cap on the look-ahead, which is searched
+        // after all if the cap turns out to change a match.
+        let uncapped = if is_multi_line { Some(haystack) } else { None };
         if is_multi_line {
             if haystack[range.end..].len() >= MAX_LOOK_AHEAD {
                 haystack = &haystack[..range.end + MAX_LOOK_AHEAD];
@@ -82,9 +85,13 @@ impl<M: Matcher> Replacer<M> {
             dst.clear();
             matches.clear();
 
+            // Capture group offsets are valid in both, since one is a prefix
+            // of the other.
+            let haystack_for_groups = uncapped.unwrap_or(haystack);
             replace_with_captures_in_context(
                 matcher,
                 haystack,
+                uncapped,
                 range.clone(),
                 open_ended,
                 caps,
@@ -93,7 +100,7 @@ impl<M: Matcher> Replacer<M> {
                     let start = dst.len();
                     caps.interpolate(
                         |name| matcher.capture_index(name),
-                        haystack,
+                        haystack_for_groups,
                         replacement,
                         dst,
                     );
@@ -509,6 +516,8 @@ where
     // empty match at the very end still belongs to the range.
     let open_ended = range.end == bytes.len()
         && !searcher.line_terminator().is_suffix(&bytes[..range.end]);
+    // The haystack without the cap on the look-ahead. See below.
+    let uncapped = if is_multi_line { Some(bytes) } else { None };
     if is_multi_line {
         if bytes[range.end..].len() >= MAX_LOOK_AHEAD {
             bytes = &bytes[..range.end + MAX_LOOK_AHEAD];
@@ -521,16 +530,49 @@ where
         trim_line_terminator(searcher, bytes, &mut m);
         bytes = &bytes[..m.end()];
     }
-    matcher
-        .find_iter_at(bytes, range.start, |m| {
-            if m.start() > range.end
-                || (m.start() == range.end && !open_ended)
-            {
-                return false;
+    // This is `Matcher::find_iter_at`, except for one thing: the searcher's
+    // own matches all end within `range`, so a match that reaches beyond it
+    // can only come from capping the haystack (e.g., `\z` matching where the
+    // haystack was cut off). In that case, search everything after all.
+    let mut last_end = range.start;
+    let mut last_match = None;
+    loop {
+        if last_end > bytes.len() {
+            break;
+        }
+        let m = match matcher
+            .find_at(bytes, last_end)
+            .map_err(io::Error::error_message)?
+        {
+            None => break,
+            Some(m) => m,
+        };
+        if m.end() > range.end {
+            if let Some(all) = uncapped {
+                if bytes.len() < all.len() {
+                    bytes = all;
+                    continue;
+                }
             }
-            matched(m)
-        })
-        .map_err(io::Error::error_message)
+        }
+        if m.start() > range.end || (m.start() == range.end && !open_ended) {
+            break;
+        }
+        if m.is_empty() {
+            // Empty matches may not be adjacent to the previous match.
+            last_end = m.end() + 1;
+            if Some(m.end()) == last_match {
+                continue;
+            }
+        } else {
+            last_end = m.end();
+        }
+        last_match = Some(m.end());
+        if !matched(m) {
+            break;
+        }
+    }
+    Ok(())
 }
 
 /// Given a buf and some bounds, if there is a line terminator at the end of
@@ -553,10 +595,12 @@ pub(crate) fn trim_line_terminator(
 
 /// Like `Matcher::replace_with_captures_at`, but accepts an end bound.
 ///
-/// See also: `find_iter_at_in_context` for why we need this.
-fn replace_with_captures_in_context<M, F>(
+/// See also: `find_iter_at_in_context` for why we need this, and for what
+/// `uncapped` is for.
+fn replace_with_captures_in_context<'b, M, F>(
     matcher: M,
-    bytes: &[u8],
+    mut bytes: &'b [u8],
+    uncapped: Option<&'b [u8]>,
     range: std::ops::Range<usize>,
     open_ended: bool,
     caps: &mut M::Captures,
@@ -567,19 +611,48 @@ where
     M: Matcher,
     F: FnMut(&M::Captures, &mut Vec<u8>) -> bool,
 {
-    let mut last_match = range.start;
-    matcher.captures_iter_at(bytes, range.start, caps, |caps| {
-        let m = caps.get(0).unwrap();
-        if m.start() > range.end || (m.start() == range.end && !open_ended)
-        {
-            return false;
+    let mut last_copied = range.start;
+    let mut last_end = range.start;
+    let mut last_match = None;
+    loop {
+        if last_end > bytes.len() {
+            break;
         }
-        dst.extend(&bytes[last_match..m.start()]);
-        last_match = m.end();
-        append(caps, dst)
-    })?;
+        if !matcher.captures_at(bytes, last_end, caps)? {
+            break;
+        }
+        let m = caps.get(0).unwrap();
+        if m.end() > range.end {
+            if let Some(all) = uncapped {
+                if bytes.len() < all.len() {
+                    bytes = all;
+                    continue;
+                }
+            }
+        }
+        if m.start() > range.end || (m.start() == range.end && !open_ended) {
+            break;
+        }
+        if m.is_empty() {
+            // Empty matches may not be adjacent to the previous match.
+            last_end = m.end() + 1;
+            if Some(m.end()) == last_match {
+                continue;
+            }
+        } else {
+            last_end = m.end();
+        }
+        last_match = Some(m.end());
+        dst.extend(&bytes[last_copied..m.start()]);
+        last_copied = m.end();
+        if !append(caps, dst) {
+            break;
+        }
+    }
     let end = std::cmp::min(bytes.len(), range.end);
-    dst.extend(&bytes[last_match..end]);
+    if last_copied < end {
+        dst.extend(&bytes[last_copied..end]);
+    }
     Ok(())
 }
 
